@@ -37,7 +37,7 @@ func init() {
 	})
 }
 
-var restrict = wprog.Restrict{NoEncrypt: true, NoWriterGet: true}
+var restrict = wprog.Restrict{NoEncrypt: true, NoWriterGet: true, Bulk: true}
 
 func Run(e *core.Env) {
 	cfg := wprog.DrawConfig(e.T, &restrict)
